@@ -28,6 +28,25 @@ Proof. intros S N. rewrite (split_nth _ _ _ N) in S. eapply ss_app_lt; eauto. Qe
 Lemma sorted_prefix_notin l a k : StronglySorted N.lt l -> nth_error l a = Some k -> ~ In k (firstn a l).
 Proof. intros S N I. apply (sorted_prefix_lt _ _ _ S N) in I. lia. Qed.
 
+Lemma nodup_snoc {A} (l : list A) x : NoDup l -> ~ In x l -> NoDup (l ++ [x]).
+Proof.
+  induction l as [|a l IH]; simpl; intros N NI; [constructor; auto; constructor|].
+  inversion N; subst. constructor.
+  - intros X. apply in_app_or in X. destruct X as [X|[X|[]]]; [auto | subst; apply NI; left; auto].
+  - apply IH; auto.
+Qed.
+Lemma nodup_app_l {A} (l1 l2 : list A) : NoDup (l1 ++ l2) -> NoDup l1.
+Proof.
+  induction l1 as [|a l1 IH]; simpl; intros N; [constructor|]. inversion N; subst. constructor; auto.
+  intros X. apply H1. apply in_or_app; auto.
+Qed.
+Lemma nodup_snoc_notin {A} (l : list A) x : NoDup (l ++ [x]) -> ~ In x l.
+Proof.
+  induction l as [|a l IH]; simpl; intros N; [tauto|]. inversion N; subst. intros [X|X].
+  - subst. apply H1. apply in_or_app. right. left. auto.
+  - apply IH; auto.
+Qed.
+
 (* genLock's sort *)
 Lemma insert_key_in k l x : In x (insert_key k l) <-> x = k \/ In x l.
 Proof.
